@@ -174,7 +174,7 @@ if __name__ == "__main__":
             v = json.load(open(os.path.join(sdir, d, "verify.json"))) if os.path.exists(os.path.join(sdir, d, "verify.json")) else {}
             det = json.load(open(os.path.join(sdir, d, "detect.json"))) if os.path.exists(os.path.join(sdir, d, "detect.json")) else {}
             ds = []
-            if m.get("status", "").startswith("obsolete"):
+            if m.get("status", "").startswith(("obsolete", "demo obsolete")):
                 ds.append(m["status"]); tally["obsolete"] += 1
             for p_, r_ in det.items():
                 if r_["exit"] == 1:
